@@ -15,9 +15,15 @@
 (*                                       with all the names it declares)   *)
 (*             "alias" names, target    (typedef <existing name> n1, ...)  *)
 (*             "addtype" name, target, replace   (API call add_type)       *)
+(* The declarations are also DERIVED FROM THE TEXT by the grammar of       *)
+(* module DefGrammar (lexer + parser over the rendered characters): the    *)
+(* text's meaning must be the abstract list the rendering started from -   *)
+(* whatever fillers, order or split - otherwise the specification (or the  *)
+(* renderer) is wrong (SPECBUG:grammar, a machinery failure).              *)
 (***************************************************************************)
 EXTENDS TypeTable, TLC, Json, IOUtils
 LOCAL INSTANCE Builtins
+DG == INSTANCE DefGrammar
 
 Traces == ndJsonDeserialize(IOEnv.TRACE_FILE)
 
@@ -53,7 +59,49 @@ Fold(decls, i, st) ==
 
 Expected(T, name) == LET st == Fold(T.decls, 1, [tab |-> Tab0, ok |-> TRUE]) IN Resolve(st.tab, Nm(name))
 
+ToSetP(s) == {s[j] : j \in 1..Len(s)}
+GrammarClauses(T) ==
+  IF "texts" \notin DOMAIN T THEN {}
+  ELSE LET g == DG!Parse(T.texts) IN
+       IF ~g.ok THEN {"SPECBUG:grammar-rejects-text"}
+       ELSE (IF g.decls = T.decls THEN {} ELSE {"SPECBUG:grammar-decls"})
+            \cup (IF ToSetP(g.consts) = ToSetP(T.consts) THEN {} ELSE {"SPECBUG:grammar-consts"})
+
+\* A text that did not come from the renderer (definitions found in the repository's tests): its meaning is the grammar's alone.
+\* Names: every user name the object knows must be declared by the text and vice versa.
+DeclNames(decls) == UNION {ToSetP(decls[j].names) : j \in 1..Len(decls)}
+\* what a grammatical text must satisfy beyond the grammar: no bit-field straddles its unit, no field name twice in one structure
+RECURSIVE NoDupFields(_)
+NoDupFields(t) ==
+  CASE t.k \in {"struct", "union"} ->
+         /\ \A a, b \in 1..Len(t.fields) : a # b /\ t.fields[a].name = t.fields[b].name => t.fields[a].name \in {"", "_"}
+         /\ \A a \in 1..Len(t.fields) : NoDupFields(t.fields[a].type)
+    [] t.k = "arr" -> NoDupFields(t.elem)
+    [] OTHER -> TRUE
+\* x[][n] - a null-terminated array OF ARRAYS - has no terminator element and is refused ("depth required")
+RECURSIVE Terminable(_)
+Terminable(t) ==
+  CASE t.k \in {"struct", "union"} -> \A a \in 1..Len(t.fields) : Terminable(t.fields[a].type)
+    [] t.k = "arr" -> ~(t.len.k = "null" /\ t.elem.k = "arr") /\ Terminable(t.elem)
+    [] OTHER -> TRUE
+ValidDecls(decls) ==
+  \A j \in 1..Len(decls) : decls[j].kind = "type" /\ decls[j].type.k \in {"struct", "union"} =>
+      WellFormed(decls[j].type, [endian |-> "<", align |-> FALSE, ptr |-> 8]) /\ NoDupFields(decls[j].type) /\ Terminable(decls[j].type)
+CorpusClauses(T) ==
+  LET g == DG!Parse(T.texts) IN
+  IF ~g.ok THEN {"SKIP:outside-grammar"}
+  ELSE LET st == Fold(g.decls, 1, [tab |-> Tab0, ok |-> ValidDecls(g.decls)]) IN
+       IF ~st.ok THEN (IF T.obs.status = "ok" THEN {"accepted-invalid"} ELSE {})
+       ELSE IF T.obs.status # "ok" THEN {"rejected-valid"}
+       ELSE (IF \A j \in 1..Len(T.obs.table) :
+                   LET e == Resolve(st.tab, Nm(T.obs.table[j][1])) IN IsType(e) /\ T.obs.table[j][2] = e.id
+             THEN {} ELSE {"table"})
+            \cup (IF {T.obs.table[j][1] : j \in 1..Len(T.obs.table)} = DeclNames(g.decls) THEN {} ELSE {"names"})
+            \cup (IF ToSetP(T.obs.consts) = ToSetP(g.consts) THEN {} ELSE {"consts"})
+
 Clauses(T) ==
+  IF T.tag = "corpus" THEN CorpusClauses(T) ELSE
+  GrammarClauses(T) \cup
   LET st == Fold(T.decls, 1, [tab |-> Tab0, ok |-> TRUE]) IN
   IF ~st.ok THEN (IF T.obs.status = "ok" THEN {"accepted-invalid"} ELSE {})
   ELSE IF T.obs.status # "ok" THEN {"rejected-valid"}
